@@ -1,1 +1,1199 @@
-//! C16 - not built yet
+//! C16 - overload resolution is order independent and prefers exact matches.
+//!
+//! Reference-model monitor. A case is a set of 2-5 overloads `R_i f(P1[, P2[, P3]])` (every overload
+//! returns its own struct type, so the selected overload is observable) plus one argument tuple. For
+//! each permutation of the declaration order the program is type checked by the real typer and the
+//! selected `FunctionId` is read out of the `ir::Expression::Call` in `test()`'s body and mapped back
+//! to the candidate (return struct name, cross-checked against the parameter types of the signature
+//! and the source location order). `assert_type<R_k>(f(args))` is a second, independent observation.
+//!
+//! Monitors (all from the property text):
+//!   1. order independence: same outcome (selected candidate | ambiguous | no match) for every
+//!      permutation of the declarations;
+//!   2. exact match: if exactly one candidate has parameter types equal to the argument types it is
+//!      selected;
+//!   3. non-domination: the selected candidate is not dominated by another viable candidate under the
+//!      rank table below.
+//!
+//! Where the oracle's knowledge comes from
+//!   * VIABILITY (which implicit conversions exist at all) was taken from reading
+//!     typer/src/casting.rs `ImplicitConversion::find`, as allowed: scalar -> scalar of any numeric
+//!     type; scalar -> vector (splat); vector N -> vector M < N and vector -> scalar (truncation) are
+//!     implicit; vector N -> vector M > N does not exist; an `out` parameter takes only an lvalue of
+//!     exactly the parameter type (no conversion, no rvalue, no literal).
+//!   * RANKS were NOT taken from the implementation. They are written from the documented priority
+//!     table (the "Overload priority" comment block that documents the language rule, DESIGN.md C16,
+//!     and the cases spelled out in typer/tests/type_check_tests.rs):
+//!       exact < promotion < (half -> double, the second promotion step) < int -> bool < conversion
+//!       bool:   bool | everything else
+//!       int:    int | uint | bool | half float double          (uint symmetrically)
+//!       `1`:    int uint | bool | half float double
+//!       half:   half | float | double | bool int uint
+//!       float:  float | double | bool int uint half
+//!       double: double | everything else
+//!       `1.0`:  half float double | bool int uint               (from the tests: "equally float and double")
+//!     and for the shape: exact < expand (scalar splat) < truncate. rssl documents these as a deviation
+//!     from DXC/C++ (it follows FXC); the harness README says to follow rssl where it documents one.
+//!     Ranks are only ever compared between two conversions of the SAME argument, and a conversion is
+//!     "not worse" only when it is not worse in BOTH the numeric and the shape component (product
+//!     order): how a numeric difference trades against a shape difference is not documented, so
+//!     such pairs are incomparable and raise no alarm.
+
+use crate::json::Json;
+use crate::report::{Ctx, Report, Tier};
+use crate::rng::{hash_str, Rng};
+use crate::rs::{self, Front};
+use crate::CheckDef;
+use rssl::ir;
+
+pub fn def() -> CheckDef {
+    CheckDef {
+        id: "C16",
+        salt: 0xC16,
+        rule: "a case = a set of 2-5 overloads of f with 1-3 parameters over {bool,int,uint,half,float,double} x {scalar,2,3,4} x {in,out} \
+               (pairwise different signatures, each returning its own struct) + one argument tuple of lvalues / cast rvalues / typed literals / \
+               untyped literals `1` `1.0`; candidates are mostly derived from the argument types by perturbing scalar type, dimension and in/out so \
+               that several are viable; every case is type checked under all permutations of the declaration order (thorough) or all <= 6 / 6 \
+               random ones (quick), plus assert_type programs. evaluations = type_check executions observed; distinct_nontrivial = distinct \
+               (candidate set, argument tuple) pairs (content hash, order of declaration ignored) for which the reference model finds at least \
+               two viable candidates, i.e. resolution really has to choose",
+        assumptions: &[
+            "which implicit conversions exist (viability) is taken from typer/src/casting.rs; the rank order is the documented priority table, not the implementation",
+            "the selected overload is identified by the return struct type of the FunctionId in the IR call (cross-checked with its parameter types, its source location and assert_type)",
+            "ambiguous / no-match rejections are told apart by the rendered diagnostic text",
+        ],
+        min_distinct: (8_000, 20_000),
+        deadline_s: (50.0, 540.0),
+        run,
+        replay,
+    }
+}
+
+// ------------------------------------------------------------------------------------------------
+// Types, parameters, arguments
+// ------------------------------------------------------------------------------------------------
+
+#[derive(Clone, Copy, PartialEq, Eq, Debug, PartialOrd, Ord)]
+enum Sc {
+    Bool,
+    Int,
+    Uint,
+    Half,
+    Float,
+    Double,
+}
+
+const SCALARS: [Sc; 6] = [Sc::Bool, Sc::Int, Sc::Uint, Sc::Half, Sc::Float, Sc::Double];
+
+impl Sc {
+    fn name(self) -> &'static str {
+        match self {
+            Sc::Bool => "bool",
+            Sc::Int => "int",
+            Sc::Uint => "uint",
+            Sc::Half => "half",
+            Sc::Float => "float",
+            Sc::Double => "double",
+        }
+    }
+    fn from_name(s: &str) -> Option<Sc> {
+        SCALARS.iter().copied().find(|c| c.name() == s)
+    }
+}
+
+/// dim 1 = scalar, 2..4 = vector
+#[derive(Clone, Copy, PartialEq, Eq, Debug, PartialOrd, Ord)]
+struct Ty {
+    sc: Sc,
+    dim: u8,
+}
+
+impl Ty {
+    fn name(&self) -> String {
+        if self.dim == 1 {
+            self.sc.name().to_string()
+        } else {
+            format!("{}{}", self.sc.name(), self.dim)
+        }
+    }
+    fn parse(s: &str) -> Option<Ty> {
+        let (base, dim) = match s.chars().last() {
+            Some(c @ '2'..='4') => (&s[..s.len() - 1], c as u8 - b'0'),
+            _ => (s, 1),
+        };
+        Some(Ty { sc: Sc::from_name(base)?, dim })
+    }
+}
+
+#[derive(Clone, Copy, PartialEq, Eq, Debug, PartialOrd, Ord)]
+struct Param {
+    ty: Ty,
+    out: bool,
+}
+
+impl Param {
+    fn text(&self) -> String {
+        if self.out {
+            format!("out {}", self.ty.name())
+        } else {
+            self.ty.name()
+        }
+    }
+    fn parse(s: &str) -> Option<Param> {
+        match s.strip_prefix("out ") {
+            Some(rest) => Some(Param { ty: Ty::parse(rest)?, out: true }),
+            None => Some(Param { ty: Ty::parse(s)?, out: false }),
+        }
+    }
+}
+
+#[derive(Clone, Copy, PartialEq, Eq, Debug)]
+enum Arg {
+    /// a local variable of the type
+    Lvalue(Ty),
+    /// rvalue `(T)0`
+    Cast(Ty),
+    /// rvalue typed literal `true` `1u` `1.0h` `1.0f` `1.0L`
+    TypedLit(Sc),
+    /// untyped `1`
+    LitInt,
+    /// untyped `1.0`
+    LitFloat,
+}
+
+/// What a conversion starts from, as far as the rank table is concerned
+#[derive(Clone, Copy, PartialEq, Eq, Debug)]
+enum Src {
+    Typed(Sc),
+    LitInt,
+    LitFloat,
+}
+
+impl Arg {
+    fn ty(&self) -> Option<Ty> {
+        match *self {
+            Arg::Lvalue(t) | Arg::Cast(t) => Some(t),
+            Arg::TypedLit(sc) => Some(Ty { sc, dim: 1 }),
+            Arg::LitInt | Arg::LitFloat => None,
+        }
+    }
+    fn dim(&self) -> u8 {
+        self.ty().map(|t| t.dim).unwrap_or(1)
+    }
+    fn src(&self) -> Src {
+        match *self {
+            Arg::LitInt => Src::LitInt,
+            Arg::LitFloat => Src::LitFloat,
+            _ => Src::Typed(self.ty().unwrap().sc),
+        }
+    }
+    fn is_lvalue(&self) -> bool {
+        matches!(self, Arg::Lvalue(_))
+    }
+    fn decl(&self, i: usize) -> Option<String> {
+        match self {
+            Arg::Lvalue(t) => Some(format!("    {} a{} = ({})0;\n", t.name(), i, t.name())),
+            _ => None,
+        }
+    }
+    fn expr(&self, i: usize) -> String {
+        match *self {
+            Arg::Lvalue(_) => format!("a{}", i),
+            Arg::Cast(t) => format!("({})0", t.name()),
+            Arg::TypedLit(sc) => typed_literal(sc).unwrap_or("true").to_string(),
+            Arg::LitInt => "1".to_string(),
+            Arg::LitFloat => "1.0".to_string(),
+        }
+    }
+    fn code(&self) -> String {
+        match *self {
+            Arg::Lvalue(t) => format!("lv:{}", t.name()),
+            Arg::Cast(t) => format!("rv:{}", t.name()),
+            Arg::TypedLit(sc) => format!("tl:{}", sc.name()),
+            Arg::LitInt => "lit:1".to_string(),
+            Arg::LitFloat => "lit:1.0".to_string(),
+        }
+    }
+    fn parse(s: &str) -> Option<Arg> {
+        if let Some(t) = s.strip_prefix("lv:") {
+            Some(Arg::Lvalue(Ty::parse(t)?))
+        } else if let Some(t) = s.strip_prefix("rv:") {
+            Some(Arg::Cast(Ty::parse(t)?))
+        } else if let Some(t) = s.strip_prefix("tl:") {
+            let sc = Sc::from_name(t)?;
+            typed_literal(sc)?;
+            Some(Arg::TypedLit(sc))
+        } else if s == "lit:1" {
+            Some(Arg::LitInt)
+        } else if s == "lit:1.0" {
+            Some(Arg::LitFloat)
+        } else {
+            None
+        }
+    }
+    fn kind(&self) -> &'static str {
+        match self {
+            Arg::Lvalue(_) => "lvalue",
+            Arg::Cast(_) => "cast-rvalue",
+            Arg::TypedLit(_) => "typed-literal",
+            Arg::LitInt => "untyped-int-literal",
+            Arg::LitFloat => "untyped-float-literal",
+        }
+    }
+}
+
+/// Typed literal spelling per scalar type (int has none: `1` is the untyped literal)
+fn typed_literal(sc: Sc) -> Option<&'static str> {
+    match sc {
+        Sc::Bool => Some("true"),
+        Sc::Int => None,
+        Sc::Uint => Some("1u"),
+        Sc::Half => Some("1.0h"),
+        Sc::Float => Some("1.0f"),
+        Sc::Double => Some("1.0L"),
+    }
+}
+
+#[derive(Clone, Debug, PartialEq)]
+struct Case {
+    /// candidate k returns struct `R{k}`; the identity of a candidate is its index here, whatever the declaration order
+    cands: Vec<Vec<Param>>,
+    args: Vec<Arg>,
+}
+
+impl Case {
+    fn sig_text(&self, k: usize) -> String {
+        let ps: Vec<String> = self.cands[k].iter().map(|p| p.text()).collect();
+        format!("R{} f({})", k, ps.join(", "))
+    }
+    fn args_text(&self) -> String {
+        let a: Vec<String> = self.args.iter().map(|a| a.code()).collect();
+        a.join(", ")
+    }
+    fn to_json(&self) -> Json {
+        Json::obj()
+            .set(
+                "candidates",
+                Json::Arr(self.cands.iter().map(|c| Json::Arr(c.iter().map(|p| Json::str(p.text())).collect())).collect()),
+            )
+            .set("args", Json::Arr(self.args.iter().map(|a| Json::str(a.code())).collect()))
+    }
+    fn from_json(j: &Json) -> Option<Case> {
+        let mut cands = Vec::new();
+        for c in j.get("candidates")?.as_arr()? {
+            let mut ps = Vec::new();
+            for p in c.as_arr()? {
+                ps.push(Param::parse(p.as_str()?)?);
+            }
+            cands.push(ps);
+        }
+        let mut args = Vec::new();
+        for a in j.get("args")?.as_arr()? {
+            args.push(Arg::parse(a.as_str()?)?);
+        }
+        if cands.is_empty() || cands.len() > 6 {
+            return None;
+        }
+        Some(Case { cands, args })
+    }
+    /// Content hash which ignores the declaration order
+    fn content_hash(&self) -> u64 {
+        let mut sigs: Vec<String> = self.cands.iter().map(|c| c.iter().map(|p| p.text()).collect::<Vec<_>>().join(",")).collect();
+        sigs.sort();
+        hash_str(&format!("{}|{}", sigs.join(";"), self.args_text()))
+    }
+}
+
+/// The program for one declaration order. `assert_ret = Some(k)` wraps the call in `assert_type<R{k}>`.
+fn render(case: &Case, perm: &[usize], assert_ret: Option<usize>) -> String {
+    let mut s = String::new();
+    for k in 0..case.cands.len() {
+        s.push_str(&format!("struct R{} {{ int v; }};\n", k));
+    }
+    for &k in perm {
+        let params: Vec<String> = case.cands[k].iter().enumerate().map(|(i, p)| format!("{} p{}", p.text(), i)).collect();
+        s.push_str(&format!("R{} f({}) {{ ", k, params.join(", ")));
+        for (i, p) in case.cands[k].iter().enumerate() {
+            if p.out {
+                s.push_str(&format!("p{} = ({})0; ", i, p.ty.name()));
+            }
+        }
+        s.push_str(&format!("R{} r; r.v = {}; return r; }}\n", k, k));
+    }
+    s.push_str("void test() {\n");
+    for (i, a) in case.args.iter().enumerate() {
+        if let Some(d) = a.decl(i) {
+            s.push_str(&d);
+        }
+    }
+    let args: Vec<String> = case.args.iter().enumerate().map(|(i, a)| a.expr(i)).collect();
+    match assert_ret {
+        Some(k) => s.push_str(&format!("    assert_type<R{}>(f({}));\n", k, args.join(", "))),
+        None => s.push_str(&format!("    f({});\n", args.join(", "))),
+    }
+    s.push_str("}\n");
+    s
+}
+
+// ------------------------------------------------------------------------------------------------
+// Reference model: viability and the rank table (see the module comment for the sources)
+// ------------------------------------------------------------------------------------------------
+
+#[derive(Clone, Copy, PartialEq, Eq, PartialOrd, Ord, Debug)]
+enum Shape {
+    Exact,
+    Expand,
+    Truncate,
+}
+
+#[derive(Clone, Copy, PartialEq, Eq, Debug)]
+struct Conv {
+    /// 0 exact, 1 promotion, 2 second promotion step (half->double), 3 int->bool, 4 conversion
+    level: u8,
+    shape: Shape,
+}
+
+impl Conv {
+    fn level_name(&self) -> &'static str {
+        match self.level {
+            0 => "exact",
+            1 => "promotion",
+            2 => "promotion2",
+            3 => "int-to-bool",
+            _ => "conversion",
+        }
+    }
+    fn shape_name(&self) -> &'static str {
+        match self.shape {
+            Shape::Exact => "same-dim",
+            Shape::Expand => "expand",
+            Shape::Truncate => "truncate",
+        }
+    }
+    fn text(&self) -> String {
+        format!("{}/{}", self.level_name(), self.shape_name())
+    }
+    /// self is not worse than other in both components
+    fn not_worse(&self, other: &Conv) -> bool {
+        self.level <= other.level && self.shape <= other.shape
+    }
+    fn better(&self, other: &Conv) -> bool {
+        self.not_worse(other) && (self.level < other.level || self.shape < other.shape)
+    }
+}
+
+fn numeric_level(src: Src, dst: Sc) -> u8 {
+    use Sc::*;
+    match src {
+        Src::Typed(s) if s == dst => 0,
+        Src::Typed(Bool) => 4,
+        Src::Typed(Int) => match dst {
+            Uint => 1,
+            Bool => 3,
+            _ => 4,
+        },
+        Src::Typed(Uint) => match dst {
+            Int => 1,
+            Bool => 3,
+            _ => 4,
+        },
+        Src::LitInt => match dst {
+            Int | Uint => 1,
+            Bool => 3,
+            _ => 4,
+        },
+        Src::Typed(Half) => match dst {
+            Float => 1,
+            Double => 2,
+            _ => 4,
+        },
+        Src::Typed(Float) => match dst {
+            Double => 1,
+            _ => 4,
+        },
+        Src::Typed(Double) => 4,
+        Src::LitFloat => match dst {
+            Half | Float | Double => 1,
+            _ => 4,
+        },
+    }
+}
+
+/// The implicit conversion of an argument to a parameter, None when there is none
+fn convert(arg: &Arg, p: &Param) -> Option<Conv> {
+    if p.out {
+        // an out parameter binds only an lvalue of exactly its type
+        return match arg {
+            Arg::Lvalue(t) if *t == p.ty => Some(Conv { level: 0, shape: Shape::Exact }),
+            _ => None,
+        };
+    }
+    let adim = arg.dim();
+    let shape = if adim == p.ty.dim {
+        Shape::Exact
+    } else if adim == 1 {
+        Shape::Expand
+    } else if adim > p.ty.dim {
+        Shape::Truncate
+    } else {
+        return None;
+    };
+    Some(Conv { level: numeric_level(arg.src(), p.ty.sc), shape })
+}
+
+fn conversions(case: &Case, k: usize) -> Option<Vec<Conv>> {
+    let c = &case.cands[k];
+    if c.len() != case.args.len() {
+        return None;
+    }
+    c.iter().zip(&case.args).map(|(p, a)| convert(a, p)).collect()
+}
+
+/// Parameter types equal the argument types exactly (typed arguments only; out needs an lvalue)
+fn is_exact(case: &Case, k: usize) -> bool {
+    let c = &case.cands[k];
+    c.len() == case.args.len()
+        && c.iter().zip(&case.args).all(|(p, a)| match a.ty() {
+            Some(t) => t == p.ty && (!p.out || a.is_lvalue()),
+            None => false,
+        })
+}
+
+// ------------------------------------------------------------------------------------------------
+// Observation of the real typer
+// ------------------------------------------------------------------------------------------------
+
+#[derive(Clone, Debug, PartialEq)]
+enum Outcome {
+    Chosen(usize),
+    Ambiguous,
+    NoMatch,
+    /// rejected with another diagnostic (message without the location)
+    Other(String),
+    Panic(String),
+    /// the harness could not identify the callee
+    Broken(String),
+}
+
+impl Outcome {
+    fn kind(&self) -> &'static str {
+        match self {
+            Outcome::Chosen(_) => "chosen",
+            Outcome::Ambiguous => "ambiguous",
+            Outcome::NoMatch => "no-match",
+            Outcome::Other(_) => "other-diagnostic",
+            Outcome::Panic(_) => "panic",
+            Outcome::Broken(_) => "unidentified",
+        }
+    }
+    fn text(&self, case: &Case) -> String {
+        match self {
+            Outcome::Chosen(k) => format!("selected {}", case.sig_text(*k)),
+            Outcome::Ambiguous => "rejected: ambiguous call".into(),
+            Outcome::NoMatch => "rejected: no matching function".into(),
+            Outcome::Other(m) => format!("rejected: {}", m),
+            Outcome::Panic(m) => format!("panic: {}", m),
+            Outcome::Broken(m) => format!("callee not identified: {}", m),
+        }
+    }
+}
+
+fn first_error_message(diag: &str) -> String {
+    for line in diag.lines() {
+        if let Some(pos) = line.find("error: ") {
+            return line[pos + 7..].trim().to_string();
+        }
+    }
+    diag.lines().next().unwrap_or("").to_string()
+}
+
+fn find_call(e: &ir::Expression, module: &ir::Module) -> Option<ir::FunctionId> {
+    match e {
+        ir::Expression::Call(id, _, args) => {
+            if module.function_registry.get_function_name(*id) == "f" {
+                Some(*id)
+            } else {
+                args.iter().find_map(|a| find_call(a, module))
+            }
+        }
+        ir::Expression::Cast(_, inner) => find_call(inner, module),
+        ir::Expression::Sequence(list) => list.iter().find_map(|a| find_call(a, module)),
+        _ => None,
+    }
+}
+
+fn decode_type(module: &ir::Module, id: ir::TypeId) -> Option<Ty> {
+    let id = module.type_registry.remove_modifier(id);
+    let sc_of = |l: ir::TypeLayer| match l {
+        ir::TypeLayer::Scalar(s) => match s {
+            ir::ScalarType::Bool => Some(Sc::Bool),
+            ir::ScalarType::Int32 => Some(Sc::Int),
+            ir::ScalarType::UInt32 => Some(Sc::Uint),
+            ir::ScalarType::Float16 => Some(Sc::Half),
+            ir::ScalarType::Float32 => Some(Sc::Float),
+            ir::ScalarType::Float64 => Some(Sc::Double),
+            _ => None,
+        },
+        _ => None,
+    };
+    match module.type_registry.get_type_layer(id) {
+        ir::TypeLayer::Vector(inner, n) if (2..=4).contains(&n) => {
+            let inner = module.type_registry.remove_modifier(inner);
+            Some(Ty { sc: sc_of(module.type_registry.get_type_layer(inner))?, dim: n as u8 })
+        }
+        l => Some(Ty { sc: sc_of(l)?, dim: 1 }),
+    }
+}
+
+/// Map the FunctionId of the call in test() back to a candidate of the case
+fn identify(module: &ir::Module, case: &Case, perm: &[usize]) -> Outcome {
+    let reg = &module.function_registry;
+    let mut test_id = None;
+    let mut f_ids = Vec::new();
+    for id in reg.iter() {
+        if reg.get_intrinsic_data(id).is_some() {
+            continue;
+        }
+        match reg.get_function_name(id) {
+            "test" => test_id = Some(id),
+            "f" => f_ids.push(id),
+            _ => {}
+        }
+    }
+    let Some(test_id) = test_id else { return Outcome::Broken("no function test in the IR".into()) };
+    let Some(imp) = reg.get_function_implementation(test_id) else { return Outcome::Broken("test has no body".into()) };
+    let mut callee = None;
+    for st in &imp.scope_block.0 {
+        if let ir::StatementKind::Expression(e) = &st.kind {
+            if let Some(id) = find_call(e, module) {
+                if callee.is_some() {
+                    return Outcome::Broken("more than one call to f in test".into());
+                }
+                callee = Some(id);
+            }
+        }
+    }
+    let Some(id) = callee else { return Outcome::Broken("no call to f in test".into()) };
+    // (a) by the return type: every candidate returns its own struct
+    let sig = reg.get_function_signature(id);
+    let ret = module.type_registry.remove_modifier(sig.return_type.return_type);
+    let k = match module.type_registry.get_type_layer(ret) {
+        ir::TypeLayer::Struct(sid) => {
+            let name = &module.struct_registry[sid.0 as usize].name.node;
+            match name.strip_prefix('R').and_then(|n| n.parse::<usize>().ok()) {
+                Some(k) if k < case.cands.len() => k,
+                _ => return Outcome::Broken(format!("callee returns struct {}", name)),
+            }
+        }
+        other => return Outcome::Broken(format!("callee returns {:?}", other)),
+    };
+    // (b) by the signature: parameter types of the callee are those of candidate k
+    let mut params = Vec::new();
+    for p in &sig.param_types {
+        let Some(ty) = decode_type(module, p.type_id) else { return Outcome::Broken("callee has a parameter type outside the generated space".into()) };
+        let out = match p.input_modifier {
+            ir::InputModifier::In => false,
+            ir::InputModifier::Out => true,
+            ir::InputModifier::InOut => return Outcome::Broken("callee has an inout parameter".into()),
+        };
+        params.push(Param { ty, out });
+    }
+    if params != case.cands[k] {
+        return Outcome::Broken(format!("callee returning R{} has parameters {:?}", k, params.iter().map(|p| p.text()).collect::<Vec<_>>()));
+    }
+    // (c) by the location: the callee is the position(k)-th declaration of f in source order
+    if f_ids.len() != case.cands.len() {
+        return Outcome::Broken(format!("{} functions named f in the IR for {} candidates", f_ids.len(), case.cands.len()));
+    }
+    let mut locs: Vec<u32> = f_ids.iter().map(|i| reg.get_function_location(*i).get_raw()).collect();
+    locs.sort();
+    let my = reg.get_function_location(id).get_raw();
+    let pos = locs.iter().position(|l| *l == my);
+    if pos != perm.iter().position(|c| *c == k) {
+        return Outcome::Broken(format!("callee returning R{} is declaration #{:?} in source order", k, pos));
+    }
+    Outcome::Chosen(k)
+}
+
+fn observe(text: &str, case: &Case, perm: &[usize], report: &mut Report) -> Outcome {
+    report.evaluations += 1;
+    match rs::typecheck_text(text) {
+        Front::Ok(module) => identify(&module, case, perm),
+        Front::Diag(d) => {
+            let m = first_error_message(&d);
+            if m.starts_with("ambiguous call to f(") {
+                Outcome::Ambiguous
+            } else if m.starts_with("no matching function for call to f(") {
+                Outcome::NoMatch
+            } else {
+                Outcome::Other(m)
+            }
+        }
+        Front::Panic(c) => Outcome::Panic(c.signature()),
+    }
+}
+
+// ------------------------------------------------------------------------------------------------
+// Permutations
+// ------------------------------------------------------------------------------------------------
+
+fn all_permutations(n: usize) -> Vec<Vec<usize>> {
+    fn rec(cur: &mut Vec<usize>, used: &mut Vec<bool>, n: usize, out: &mut Vec<Vec<usize>>) {
+        if cur.len() == n {
+            out.push(cur.clone());
+            return;
+        }
+        for i in 0..n {
+            if !used[i] {
+                used[i] = true;
+                cur.push(i);
+                rec(cur, used, n, out);
+                cur.pop();
+                used[i] = false;
+            }
+        }
+    }
+    let mut out = Vec::new();
+    rec(&mut Vec::new(), &mut vec![false; n], n, &mut out);
+    out
+}
+
+/// All permutations when `all` or there are at most 6; otherwise identity, reverse and 4 random ones
+fn permutations_for(n: usize, all: bool, rng: &mut Rng) -> Vec<Vec<usize>> {
+    let count: usize = (1..=n).product();
+    if all || count <= 6 {
+        return all_permutations(n);
+    }
+    let mut out: Vec<Vec<usize>> = vec![(0..n).collect(), (0..n).rev().collect()];
+    let mut tries = 0;
+    while out.len() < 6 && tries < 100 {
+        tries += 1;
+        let mut p: Vec<usize> = (0..n).collect();
+        rng.shuffle(&mut p);
+        if !out.contains(&p) {
+            out.push(p);
+        }
+    }
+    out
+}
+
+// ------------------------------------------------------------------------------------------------
+// The monitors
+// ------------------------------------------------------------------------------------------------
+
+fn perm_text(p: &[usize]) -> String {
+    let v: Vec<String> = p.iter().map(|k| format!("R{}", k)).collect();
+    v.join(",")
+}
+
+fn examine(case: &Case, perms: &[Vec<usize>], second_observation: bool, report: &mut Report) {
+    let n = case.cands.len();
+    let convs: Vec<Option<Vec<Conv>>> = (0..n).map(|k| conversions(case, k)).collect();
+    let viable: Vec<usize> = (0..n).filter(|k| convs[*k].is_some()).collect();
+    let exact: Vec<usize> = (0..n).filter(|k| is_exact(case, *k)).collect();
+
+    let mut outcomes: Vec<Outcome> = Vec::with_capacity(perms.len());
+    for p in perms {
+        outcomes.push(observe(&render(case, p, None), case, p, report));
+    }
+    let witness = |extra: Json| -> Json {
+        let mut per = Vec::new();
+        for (p, o) in perms.iter().zip(&outcomes) {
+            per.push(Json::obj().set("declaration_order", perm_text(p)).set("outcome", o.text(case)));
+        }
+        let mut w = case.to_json();
+        w.put("signatures", Json::Arr((0..n).map(|k| Json::str(case.sig_text(k))).collect()));
+        w.put("model_viable", Json::Arr(viable.iter().map(|k| Json::str(format!("R{}", k))).collect()));
+        w.put("model_exact", Json::Arr(exact.iter().map(|k| Json::str(format!("R{}", k))).collect()));
+        w.put("observed", Json::Arr(per));
+        w.put("program_first_order", render(case, &perms[0], None));
+        if let Json::Obj(items) = extra {
+            for (k, v) in items {
+                w.put(&k, v);
+            }
+        }
+        w
+    };
+
+    // panics are C08's business; an unidentified callee is a harness problem
+    if let Some(Outcome::Panic(m)) = outcomes.iter().find(|o| matches!(o, Outcome::Panic(_))) {
+        report.count(&format!("skipped:panic:{}", m));
+        return;
+    }
+    if let Some(Outcome::Broken(m)) = outcomes.iter().find(|o| matches!(o, Outcome::Broken(_))) {
+        report.inconclusive(&format!("could not identify the selected overload: {} (case {} ; args {})", m, case.to_json().to_string_compact(), case.args_text()));
+        return;
+    }
+
+    // the viability model is the trusted base of monitor 3: check it against what the typer does
+    // (a disagreement is a problem of the model, not a violation of C16)
+    for o in &outcomes {
+        let model_ok = match o {
+            Outcome::Chosen(k) => convs[*k].is_some(),
+            Outcome::Ambiguous => viable.len() >= 2,
+            Outcome::NoMatch | Outcome::Other(_) => true,
+            _ => true,
+        };
+        if !model_ok {
+            report.inconclusive(&format!(
+                "the viability model (taken from casting.rs) no longer matches the typer: f({}) gives [{}] but the model finds {} viable candidates; case {}",
+                case.args_text(),
+                o.text(case),
+                viable.len(),
+                case.to_json().to_string_compact()
+            ));
+            break;
+        }
+    }
+    if viable.is_empty() {
+        report.count(&format!("model-says-no-viable-candidate:typer-{}", outcomes[0].kind()));
+    }
+
+    // ---- monitor 1: order independence ------------------------------------------------------
+    let first = &outcomes[0];
+    if let Some(i) = outcomes.iter().position(|o| o != first) {
+        let sig = format!("order-dependence:{}-vs-{}", first.kind(), outcomes[i].kind());
+        let summary = format!(
+            "call f({}) gives [{}] when the candidates are declared in the order {} but [{}] in the order {}",
+            case.args_text(),
+            first.text(case),
+            perm_text(&perms[0]),
+            outcomes[i].text(case),
+            perm_text(&perms[i])
+        );
+        report.violation(&sig, &summary, witness(Json::obj().set("program_other_order", render(case, &perms[i], None))));
+        report.count("monitor-fired:order-dependence");
+    }
+    report.count_n("monitor:order-independence-comparisons", perms.len() as u64 - 1);
+
+    // ---- monitor 2: a unique exact match is selected ----------------------------------------
+    match exact.len() {
+        0 => report.count("exact:none"),
+        1 => {
+            report.count("exact:unique");
+            let e = exact[0];
+            if let Some(i) = outcomes.iter().position(|o| *o != Outcome::Chosen(e)) {
+                let sig = format!("exact-match-not-selected:{}", outcomes[i].kind());
+                let summary = format!(
+                    "call f({}): candidate {} matches the argument types exactly but the outcome is [{}] (declaration order {})",
+                    case.args_text(),
+                    case.sig_text(e),
+                    outcomes[i].text(case),
+                    perm_text(&perms[i])
+                );
+                report.violation(&sig, &summary, witness(Json::obj().set("program_failing_order", render(case, &perms[i], None))));
+                report.count("monitor-fired:exact-match");
+            }
+        }
+        _ => report.count("exact:several(in/out twins, no claim)"),
+    }
+
+    // ---- monitor 3: the selected candidate is not dominated by a viable one -----------------
+    let mut reported = Vec::new();
+    for (i, o) in outcomes.iter().enumerate() {
+        let Outcome::Chosen(k) = *o else { continue };
+        if reported.contains(&k) {
+            continue;
+        }
+        reported.push(k);
+        let Some(ck) = &convs[k] else { continue };
+        for c in ck {
+            report.count(&format!("selected-conversion:{}", c.text()));
+        }
+        for &j in &viable {
+            if j == k {
+                continue;
+            }
+            let cj = convs[j].as_ref().unwrap();
+            report.count("monitor:domination-pairs-compared");
+            let no_worse = cj.iter().zip(ck).all(|(a, b)| a.not_worse(b));
+            let better_at = cj.iter().zip(ck).position(|(a, b)| a.better(b));
+            if no_worse {
+                if let Some(at) = better_at {
+                    // class of the failure: the rank component in which the selected candidate loses
+                    let sig = if cj[at].level < ck[at].level {
+                        format!("selected-dominated:numeric:{}-over-{}", ck[at].level_name(), cj[at].level_name())
+                    } else {
+                        format!("selected-dominated:shape:{}-over-{}", ck[at].shape_name(), cj[at].shape_name())
+                    };
+                    let summary = format!(
+                        "call f({}) selects {} although {} converts no argument worse and argument {} better ({} instead of {}) (declaration order {})",
+                        case.args_text(),
+                        case.sig_text(k),
+                        case.sig_text(j),
+                        at + 1,
+                        cj[at].text(),
+                        ck[at].text(),
+                        perm_text(&perms[i])
+                    );
+                    let conv_json = |c: &Vec<Conv>| Json::Arr(c.iter().map(|x| Json::str(x.text())).collect());
+                    report.violation(
+                        &sig,
+                        &summary,
+                        witness(Json::obj().set("selected_conversions", conv_json(ck)).set("dominating", case.sig_text(j)).set("dominating_conversions", conv_json(cj))),
+                    );
+                    report.count("monitor-fired:domination");
+                }
+            }
+        }
+    }
+
+    // ---- second observation: assert_type agrees with the callee read from the IR -------------
+    if second_observation {
+        let p = &perms[perms.len() - 1];
+        let o = &outcomes[perms.len() - 1];
+        match o {
+            Outcome::Chosen(k) => {
+                let good = observe(&render(case, p, Some(*k)), case, p, report);
+                let other = (*k + 1) % n;
+                let bad = observe(&render(case, p, Some(other)), case, p, report);
+                let expect_bad = Outcome::Other(format!("expected type 'R{}' but received type 'R{}'", other, k));
+                if good != *o || bad != expect_bad {
+                    report.inconclusive(&format!(
+                        "assert_type observation disagrees with the IR observation: IR says [{}], assert_type<R{}> gives [{}], assert_type<R{}> gives [{}]; case {}",
+                        o.text(case),
+                        k,
+                        good.text(case),
+                        other,
+                        bad.text(case),
+                        case.to_json().to_string_compact()
+                    ));
+                }
+                report.count("second-observation:assert_type-accepts-selected-and-rejects-other");
+            }
+            Outcome::Ambiguous | Outcome::NoMatch => {
+                let again = observe(&render(case, p, Some(0)), case, p, report);
+                if again != *o {
+                    report.inconclusive(&format!(
+                        "assert_type observation disagrees: plain call gives [{}], inside assert_type [{}]; case {}",
+                        o.text(case),
+                        again.text(case),
+                        case.to_json().to_string_compact()
+                    ));
+                }
+                report.count("second-observation:assert_type-same-rejection");
+            }
+            _ => {}
+        }
+    }
+
+    // ---- what was seen -------------------------------------------------------------------------
+    report.count(&format!("outcome:{}", first.kind()));
+    if let Outcome::Other(m) = first {
+        report.count(&format!("other-diagnostic:{}", m.chars().take(60).collect::<String>()));
+    }
+    report.count(&format!("candidates:{}", n));
+    report.count(&format!("arity:{}", case.args.len()));
+    report.count(&format!("model-viable-candidates:{}", viable.len().min(5)));
+    report.count(&format!("permutations-per-case:{}", perms.len()));
+    match (first, viable.len()) {
+        (Outcome::NoMatch, v) if v > 0 => report.count("rejected-as-no-match-although-viable-candidates-exist(pareto tie)"),
+        (Outcome::Ambiguous, _) => report.count(&format!("ambiguous-with-viable:{}", viable.len())),
+        (Outcome::Chosen(_), 1) => report.count("selected-the-only-viable-candidate"),
+        (Outcome::Chosen(_), _) => report.count("selected-among-several-viable-candidates"),
+        _ => {}
+    }
+    for a in &case.args {
+        report.count(&format!("arg:{}", a.kind()));
+        report.count(&format!("arg-dim:{}", a.dim()));
+    }
+    for c in &case.cands {
+        for p in c {
+            report.count(if p.out { "param:out" } else { "param:in" });
+        }
+        if c.len() != case.args.len() {
+            report.count("candidate:other-arity");
+        }
+    }
+    if viable.len() >= 2 {
+        report.distinct(case.content_hash());
+        if report.want_sample() {
+            report.sample(witness(Json::obj()));
+        }
+    } else {
+        report.count("trivial(fewer than two viable candidates, not counted as distinct)");
+    }
+}
+
+// ------------------------------------------------------------------------------------------------
+// Generator
+// ------------------------------------------------------------------------------------------------
+
+fn random_ty(rng: &mut Rng) -> Ty {
+    let sc = *rng.pick(&SCALARS);
+    let dim = if rng.chance(45, 100) { 1 } else { rng.range(2, 4) as u8 };
+    Ty { sc, dim }
+}
+
+fn random_arg(rng: &mut Rng) -> Arg {
+    let t = random_ty(rng);
+    match rng.below(100) {
+        0..=34 => Arg::Lvalue(t),
+        35..=59 => Arg::Cast(t),
+        60..=69 => {
+            if typed_literal(t.sc).is_some() {
+                Arg::TypedLit(t.sc)
+            } else {
+                Arg::Cast(Ty { sc: t.sc, dim: 1 })
+            }
+        }
+        70..=84 => Arg::LitInt,
+        _ => Arg::LitFloat,
+    }
+}
+
+/// A variation of an argument: other value category, literal instead of a value, other scalar type or dimension
+fn vary_arg(a: Arg, rng: &mut Rng) -> Arg {
+    let t = a.ty().unwrap_or(Ty { sc: if a == Arg::LitInt { Sc::Int } else { Sc::Float }, dim: 1 });
+    match rng.below(6) {
+        0 => match a {
+            Arg::Lvalue(t) => Arg::Cast(t),
+            _ => Arg::Lvalue(t),
+        },
+        1 => Arg::LitInt,
+        2 => Arg::LitFloat,
+        3 => Arg::Lvalue(Ty { sc: *rng.pick(&SCALARS), dim: t.dim }),
+        4 => Arg::Cast(Ty { sc: t.sc, dim: rng.range(1, 4) as u8 }),
+        _ => random_arg(rng),
+    }
+}
+
+fn derived_param(a: &Arg, rng: &mut Rng) -> Param {
+    let base = match a {
+        Arg::LitInt => Ty { sc: *rng.pick(&[Sc::Int, Sc::Uint]), dim: 1 },
+        Arg::LitFloat => Ty { sc: *rng.pick(&[Sc::Half, Sc::Float, Sc::Double]), dim: 1 },
+        _ => a.ty().unwrap(),
+    };
+    let mut ty = base;
+    if !rng.chance(35, 100) {
+        if rng.chance(60, 100) {
+            ty.sc = *rng.pick(&SCALARS);
+        }
+        if rng.chance(50, 100) {
+            ty.dim = if base.dim == 1 {
+                rng.range(1, 4) as u8
+            } else if rng.chance(85, 100) {
+                rng.range(1, base.dim as i64) as u8
+            } else {
+                rng.range(1, 4) as u8
+            };
+        }
+    }
+    let out = if a.is_lvalue() { rng.chance(18, 100) } else { rng.chance(3, 100) };
+    Param { ty, out }
+}
+
+fn gen_set(rng: &mut Rng) -> Case {
+    let arity = match rng.below(10) {
+        0..=2 => 1,
+        3..=6 => 2,
+        _ => 3,
+    };
+    let args: Vec<Arg> = (0..arity).map(|_| random_arg(rng)).collect();
+    let ncand = rng.range(2, 5) as usize;
+    let mut cands: Vec<Vec<Param>> = Vec::new();
+    while cands.len() < ncand {
+        let mut tries = 0;
+        loop {
+            tries += 1;
+            let c: Vec<Param> = if rng.chance(8, 100) || tries > 20 {
+                // unrelated candidate, possibly of another arity
+                let n = if rng.chance(50, 100) { arity } else { rng.range(1, 3) as usize };
+                (0..n).map(|_| Param { ty: random_ty(rng), out: rng.chance(10, 100) }).collect()
+            } else {
+                args.iter().map(|a| derived_param(a, rng)).collect()
+            };
+            if !cands.contains(&c) {
+                cands.push(c);
+                break;
+            }
+        }
+    }
+    Case { cands, args }
+}
+
+const SALT_SET: u64 = 0x16_01;
+const SALT_ARGS: u64 = 0x16_02;
+const SALT_PERM: u64 = 0x16_03;
+/// Argument tuples tried per candidate set
+const TUPLES_PER_SET: u64 = 4;
+
+/// Case `index` is a pure function of (seed, index): the set comes from index / 4, the argument tuple from index
+fn make_case(seed: u64, index: u64) -> Case {
+    let mut rng = Rng::for_case(seed, SALT_SET, index / TUPLES_PER_SET);
+    let mut case = gen_set(&mut rng);
+    if index % TUPLES_PER_SET != 0 {
+        let mut r = Rng::for_case(seed, SALT_ARGS, index);
+        let which = r.below(case.args.len());
+        for i in 0..case.args.len() {
+            if i == which || r.chance(30, 100) {
+                case.args[i] = vary_arg(case.args[i], &mut r);
+            }
+        }
+    }
+    case
+}
+
+// ------------------------------------------------------------------------------------------------
+// Self test of the argument forms (their type and value category is what the oracle assumes)
+// ------------------------------------------------------------------------------------------------
+
+fn self_test(report: &mut Report) {
+    let mut bad = Vec::new();
+    let mut accept = |text: String, expect_ok: bool, what: String, report: &mut Report| {
+        report.evaluations += 1;
+        report.count("self-test:argument-form-programs");
+        let ok = matches!(rs::typecheck_text(&text), Front::Ok(_));
+        if ok != expect_ok {
+            bad.push(what);
+        }
+    };
+    for sc in SCALARS {
+        for dim in 1..=4u8 {
+            let t = Ty { sc, dim }.name();
+            accept(format!("void test() {{ {t} a0 = ({t})0; assert_type<{t}>(a0); assert_type<{t}>(({t})0); }}"), true, format!("lvalue / cast of {t} has type {t}"), report);
+            accept(format!("void g(out {t} p) {{ p = ({t})0; }} void test() {{ {t} a0 = ({t})0; g(a0); }}"), true, format!("variable of {t} binds to out {t}"), report);
+            accept(format!("void g(out {t} p) {{ p = ({t})0; }} void test() {{ g(({t})0); }}"), false, format!("({t})0 does not bind to out {t}"), report);
+        }
+        if let Some(l) = typed_literal(sc) {
+            let t = sc.name();
+            accept(format!("void test() {{ assert_type<{t}>({l}); }}"), true, format!("{l} has type {t}"), report);
+        }
+    }
+    // the untyped literals have none of the six types
+    for sc in SCALARS {
+        let t = sc.name();
+        if sc != Sc::Bool {
+            accept(format!("void test() {{ assert_type<{t}>(1); }}"), false, format!("1 is not of type {t}"), report);
+            accept(format!("void test() {{ assert_type<{t}>(1.0); }}"), false, format!("1.0 is not of type {t}"), report);
+        }
+    }
+    if !bad.is_empty() {
+        report.inconclusive(&format!("argument forms do not have the assumed types: {}", bad.join("; ")));
+    }
+}
+
+// ------------------------------------------------------------------------------------------------
+// Directed cases: the situations the property text names, always part of the workload
+// ------------------------------------------------------------------------------------------------
+
+fn directed_cases() -> Vec<Case> {
+    let mut out = Vec::new();
+    let p = |s: &str| Param::parse(s).unwrap();
+    // every scalar argument type against every pair / the complete set of scalar parameter types
+    let srcs: Vec<Arg> = SCALARS
+        .iter()
+        .flat_map(|sc| {
+            let t = Ty { sc: *sc, dim: 1 };
+            let mut v = vec![Arg::Lvalue(t), Arg::Cast(t)];
+            if typed_literal(*sc).is_some() {
+                v.push(Arg::TypedLit(*sc));
+            }
+            v
+        })
+        .chain([Arg::LitInt, Arg::LitFloat])
+        .collect();
+    for a in &srcs {
+        for i in 0..SCALARS.len() {
+            for j in (i + 1)..SCALARS.len() {
+                out.push(Case {
+                    cands: vec![vec![Param { ty: Ty { sc: SCALARS[i], dim: 1 }, out: false }], vec![Param { ty: Ty { sc: SCALARS[j], dim: 1 }, out: false }]],
+                    args: vec![*a],
+                });
+            }
+        }
+        for skip in 0..=SCALARS.len() {
+            // five of the six scalar types (or, for skip == 6, the first five)
+            let cands: Vec<Vec<Param>> = SCALARS.iter().enumerate().filter(|(i, _)| *i != skip).take(5).map(|(_, sc)| vec![Param { ty: Ty { sc: *sc, dim: 1 }, out: false }]).collect();
+            out.push(Case { cands, args: vec![*a] });
+        }
+    }
+    // dimensions: every argument dimension against all pairs of parameter dimensions
+    for sc in [Sc::Float, Sc::Int] {
+        for adim in 1..=4u8 {
+            for d1 in 1..=4u8 {
+                for d2 in (d1 + 1)..=4u8 {
+                    for a in [Arg::Lvalue(Ty { sc, dim: adim }), Arg::Cast(Ty { sc, dim: adim })] {
+                        out.push(Case {
+                            cands: vec![vec![Param { ty: Ty { sc, dim: d1 }, out: false }], vec![Param { ty: Ty { sc, dim: d2 }, out: false }]],
+                            args: vec![a],
+                        });
+                        // numeric rank against shape rank
+                        out.push(Case {
+                            cands: vec![vec![Param { ty: Ty { sc: Sc::Double, dim: d1 }, out: false }], vec![Param { ty: Ty { sc, dim: d2 }, out: false }]],
+                            args: vec![a],
+                        });
+                    }
+                }
+            }
+        }
+    }
+    // in / out twins and out parameters with lvalues, rvalues, literals
+    for a in [Arg::Lvalue(Ty { sc: Sc::Int, dim: 1 }), Arg::Cast(Ty { sc: Sc::Int, dim: 1 }), Arg::LitInt, Arg::Lvalue(Ty { sc: Sc::Uint, dim: 1 })] {
+        out.push(Case { cands: vec![vec![p("int")], vec![p("out int")]], args: vec![a] });
+        out.push(Case { cands: vec![vec![p("out int")], vec![p("float")], vec![p("out uint")]], args: vec![a] });
+        out.push(Case { cands: vec![vec![p("out int"), p("int")], vec![p("int"), p("out int")], vec![p("int"), p("int")]], args: vec![a, Arg::Lvalue(Ty { sc: Sc::Int, dim: 1 })] });
+    }
+    // pareto situations with two and three arguments
+    for (a0, a1) in [(Arg::Cast(Ty { sc: Sc::Int, dim: 1 }), Arg::Cast(Ty { sc: Sc::Float, dim: 1 })), (Arg::LitInt, Arg::LitFloat), (Arg::Lvalue(Ty { sc: Sc::Half, dim: 1 }), Arg::Lvalue(Ty { sc: Sc::Half, dim: 3 }))] {
+        out.push(Case { cands: vec![vec![p("int"), p("double")], vec![p("uint"), p("float")], vec![p("float"), p("float")], vec![p("int"), p("float")]], args: vec![a0, a1] });
+        out.push(Case { cands: vec![vec![p("float"), p("double")], vec![p("double"), p("float")], vec![p("half"), p("half3")], vec![p("float3"), p("float3")], vec![p("half"), p("float2")]], args: vec![a0, a1] });
+        out.push(Case {
+            cands: vec![vec![p("int"), p("float"), p("bool")], vec![p("uint"), p("float"), p("int")], vec![p("int"), p("double"), p("uint")], vec![p("bool"), p("half"), p("int")]],
+            args: vec![a0, a1, Arg::LitInt],
+        });
+    }
+    out
+}
+
+// ------------------------------------------------------------------------------------------------
+// run / replay
+// ------------------------------------------------------------------------------------------------
+
+fn run(ctx: &Ctx) -> Report {
+    let mut report = Report::new();
+    self_test(&mut report);
+    if !report.inconclusive.is_empty() {
+        return report;
+    }
+    let thorough = ctx.tier == Tier::Thorough;
+    let seed = ctx.seed;
+
+    // directed cases: always all permutations
+    let directed = directed_cases();
+    let r = crate::par::run_cases(ctx, directed.len() as u64, |index, report| {
+        let case = &directed[index as usize];
+        let perms = all_permutations(case.cands.len());
+        examine(case, &perms, true, report);
+        report.count("cases:directed");
+    });
+    report.merge(r);
+
+    // generated cases
+    let n = ctx.tier.pick(24_000, 120_000);
+    let r = crate::par::run_cases(ctx, n, |index, report| {
+        let case = make_case(seed, index);
+        let mut prng = Rng::for_case(seed, SALT_PERM, index);
+        let perms = permutations_for(case.cands.len(), thorough, &mut prng);
+        examine(&case, &perms, true, report);
+        report.count("cases:generated");
+    });
+    report.merge(r);
+    if thorough {
+        report.notes.push("thorough tier: every case is checked under all permutations of the declaration order (up to 120)".into());
+    } else {
+        report.notes.push("quick tier: all permutations for <= 3 candidates, identity + reverse + 4 random ones for 4-5 candidates".into());
+    }
+    report
+}
+
+fn replay(_ctx: &Ctx, witness: &Json) -> Report {
+    let mut report = Report::new();
+    let Some(case) = Case::from_json(witness) else {
+        report.inconclusive("witness does not contain a candidates/args description");
+        return report;
+    };
+    let perms = all_permutations(case.cands.len());
+    examine(&case, &perms, true, &mut report);
+    report
+}
